@@ -574,7 +574,7 @@ def witness_programs():
 def gen_programs(ck):
     rng = ck.rng
     progs = []
-    n = ck.pick(450, 6000)
+    n = ck.pick(900, 8000)
     for i in range(n):
         r = rng.random()
         clean = r < 0.85
